@@ -33,6 +33,14 @@ IsErr(e)  == e.k = "err"
 RECURSIVE Flat(_)
 Flat(ss) == IF ss = <<>> THEN <<>> ELSE ss[1] \o Flat(Tail(ss))
 
+RECURSIVE IsConstExpr(_)
+IsConstExpr(e) ==        \* a surface expression over literals only (its dtype is `const` in the code)
+    CASE e.k = "lit" -> TRUE
+      [] e.k = "fn" -> \A i \in DOMAIN e.a : IsConstExpr(e.a[i])
+      [] e.k = "cast" -> IsConstExpr(e.e)
+      [] e.k = "case" -> (\A i \in DOMAIN e.cs : IsConstExpr(e.cs[i].c) /\ IsConstExpr(e.cs[i].v)) /\ (\A i \in DOMAIN e.d : IsConstExpr(e.d[i]))
+      [] OTHER -> FALSE
+
 (* first error among a sequence of elaborated expressions, or <<>> *)
 FirstErr(es) == LET bad == SelectSeq(es, LAMBDA x : x.k = "err") IN
                 IF bad = <<>> THEN <<>> ELSE <<bad[1]>>
